@@ -57,6 +57,9 @@ func verifStubHKDF(hashAlg string, key []byte, salt []byte, info []byte, tagSize
 }
 func verifStubNewCipher(key []byte) (cipher.Block, error) { return verifC16Block{}, nil }
 func verifStubNewGCM(b cipher.Block, tagSize int) (cipher.AEAD, error) {
+	if verifC16Strict {
+		return &verifC16StrictAEAD{}, nil
+	}
 	verifC16TheAEAD = &verifC16AEAD{}
 	return verifC16TheAEAD, nil
 }
@@ -274,4 +277,104 @@ func VerifC16ReadSeek() {
 	if len(verifC16TheAEAD.calls) > 1 {
 		verifCover("multi-segment")
 	}
+}
+
+// ---- C: truncation / header tampering ---------------------------------------------
+
+// strict AEAD model: a segment authenticates only under the nonce it was sealed
+// with (the reference encoder writes segment index and last-flag into the tag)
+type verifC16StrictAEAD struct{ verifC16AEAD }
+
+func (a *verifC16StrictAEAD) Open(dst, nonce, ciphertext, additionalData []byte) ([]byte, error) {
+	if len(ciphertext) < verifC16Tag {
+		return nil, errors.New("short")
+	}
+	tag := ciphertext[len(ciphertext)-verifC16Tag:]
+	if tag[0] != 0xA0|nonce[11] || tag[1] != nonce[10] {
+		return nil, errors.New("cipher: message authentication failed")
+	}
+	for _, b := range tag[2:] {
+		if b != 0xAA {
+			return nil, errors.New("cipher: message authentication failed")
+		}
+	}
+	return append(dst, ciphertext[:len(ciphertext)-verifC16Tag]...), nil
+}
+
+var verifC16Strict bool
+
+func verifC16PlainLow(i int64) byte { return byte(i*7+3) & 0x7F }
+
+// VerifC16Truncation: a stream cut at ANY byte position must not read as a
+// complete (shorter) plaintext: reading to the end has to fail.
+func VerifC16Truncation() {
+	css := int64(57)
+	pss := css - verifC16Tag
+	first := pss - verifC16Hdr
+	cands := [6]int64{0, 1, first, first + 1, first + pss, first + pss + 2}
+	p := cands[verifPick("pIdx", 0, 5)]
+	nseg := verifC16Segments(p, css)
+	var data []byte
+	if verifNative() {
+		data = verifC16NativeEncode(p, css, 0, []byte("id"))
+	} else {
+		data = append(data, verifC16Hdr)
+		for i := 1; i < verifC16Hdr; i++ {
+			data = append(data, byte(i))
+		}
+		var written int64
+		for sg := int64(0); sg < nseg; sg++ {
+			room := pss
+			if sg == 0 {
+				room = first
+			}
+			for k := int64(0); k < room && written < p; k++ {
+				data = append(data, verifC16PlainLow(written))
+				written++
+			}
+			last := byte(0)
+			if sg == nseg-1 {
+				last = 1
+			}
+			data = append(data, 0xA0|last, byte(sg))
+			for k := 2; k < verifC16Tag; k++ {
+				data = append(data, 0xAA)
+			}
+		}
+	}
+	full := len(data)
+	cut := verifPick("cut", 0, full-1)
+	verifC16Strict = true
+	r := &verifC16BytesReader{data: data[:cut]}
+	s, err := newSeekableDecryptingReader(r, 0, make([]byte, 32), []byte("id"), int(css))
+	verifC16Strict = false
+	if err != nil {
+		verifCover("rejected-at-open")
+		return
+	}
+	buf := make([]byte, 64)
+	var got int64
+	var rerr error
+	for k := 0; k < 20; k++ {
+		n, e := s.Read(buf)
+		got += int64(n)
+		if e != nil {
+			rerr = e
+			break
+		}
+	}
+	verifAssert(rerr != nil, "C16: truncated stream did not terminate")
+	verifAssert(rerr != io.EOF, "C16: a truncated ciphertext was read to a clean EOF (shortened plaintext accepted)")
+	verifCover("rejected-at-read")
+}
+
+// VerifC16HeaderByte: the leading header-length byte is not covered by any tag;
+// any value other than the expected one must be rejected.
+func VerifC16HeaderByte() {
+	h := verifByte("headerByte")
+	verifAssume(h != verifC16Hdr)
+	data := make([]byte, verifC16Hdr+verifC16Tag)
+	data[0] = h
+	_, err := newSeekableDecryptingReader(&verifC16BytesReader{data: data}, 0, make([]byte, 32), []byte("id"), 4096)
+	verifAssert(err != nil, "C16: modified header-length byte accepted")
 }
